@@ -554,3 +554,41 @@ B("B105", "C07-D6", [(CTRL, "                succession_diagram.edge_all_stable_
 B("B106", "C07-D4", [(CTRL, "            if any(set(d) <= set(driver_set) for d in drivers):", "            if any(set(d) >= set(driver_set) for d in drivers):")],
   "minimality filter reversed")
 V("V107", "De Morgan of the hot-lava predicate", edits=[(CTRL, "        if not is_consistent or (not is_goal and is_minimal):", "        if not (is_consistent and (is_goal or not is_minimal)):")])
+
+
+# ------------------------------------------------------------------------------------------ C02 / C10 / C11 / C17
+B("B30", "C02-H3", [(SD, '''        else:
+            self.dag.edges[parent_id, child_id]["all_motifs"].append(stable_motif)  # type: ignore
+''', '')], "further motifs of an existing edge are not recorded")
+B("B30b", "C02-H3", [(SD, "                result.append({k: v for k, v in m.items() if k not in node_space})", "                result.append({k: v for k, v in m.items() if k in node_space})")],
+  "reduced motifs keep exactly the wrong variables")
+B("B54", "C10-C", [(PN, "        f_val[best_var] = False\n", "        f_val[best_var] = True\n")], "clauses of the negative cofactor carry the positive literal")
+B("B55", "C10-B", [(PN, "            pn.add_edge(places[variable_str][value], t_name)  # type: ignore[reportUnknownMemberType] # noqa\n            pn.add_edge(t_name, places[variable_str][value])",
+                    "            pn.add_edge(places[variable_str][not value], t_name)  # type: ignore[reportUnknownMemberType] # noqa\n            pn.add_edge(t_name, places[variable_str][not value])")],
+  "read arcs on the place of the opposite value")
+B("B56", "C10-D", [(PN, '''        for tr in result.successors(inverse_place):  # type: ignore
+            to_delete.add(cast(str, tr))
+''', '')], "transitions that need the opposite value survive the restriction")
+B("B56b", "C10-A", [(PN, "            pn, symbolic_context.bdd_variable_set(), places, var_name, p_bdd, go_up=True", "            pn, symbolic_context.bdd_variable_set(), places, var_name, n_bdd, go_up=True")],
+  "up transitions generated from the down condition")
+B("B57", "C11-B", [(SPACE, '''                if var in restriction and restriction[var] != fn_value:
+                    # There is a conflict. We don't want to output this,
+                    # but we also don't want to change the value.
+                    candidates.remove(var)
+                else:
+                    done = False''', '''                if False:
+                    candidates.remove(var)
+                else:
+                    done = False''')], "given values can be overwritten by percolation")
+B("B58", "C11-C", [(SYMU, "    if reduced_f.is_true():\n        return 1\n    if reduced_f.is_false():\n        return 0", "    if reduced_f.is_true():\n        return 0\n    if reduced_f.is_false():\n        return 1")],
+  "function_eval inverted after restriction")
+B("B108", "C11-A", [(SPACE, "    for var, value in percolated.items():\n        var_name = network.get_network_variable_name(var)\n        result[var_name]",
+                     "    for var, value in percolated.items():\n        var_name = network.get_network_variable_name(var)\n        if var_name in space:\n            continue\n        result[var_name]")],
+  "percolate_space drops the given values from its result")
+B("B109", "C11-D", [(DRV, "        if target_subspace.items() <= (LDOI.items() | {fix}):", "        if (LDOI.items() | {fix}) <= target_subspace.items():")],
+  "single-driver test reversed")
+B("B59", "C17-R", [(PN, 'new_name = re.sub("[^a-zA-Z0-9_]", "_", name)', 'new_name = re.sub("[^a-zA-Z0-9_-]", "_", name)')],
+  "replacement class keeps '-' which the acceptance pattern rejects")
+B("B110", "C17-P", [(PN, '        return f"b1_{variable}"', '        return f"B1_{variable}"'), (PN, '    if place.startswith("b1_"):', '    if place.startswith("B1_"):')],
+  "place prefix starts with an upper-case letter (a clingo variable)")
+V("V59", "replacement and acceptance class both without '_' is consistent... (kept: same classes)", edits=[(PN, 'if not re.match("^[a-zA-Z0-9_]+$", name):', 'if not re.match("^[A-Za-z0-9_]+$", name):')])
